@@ -1194,6 +1194,14 @@ impl Out {
             }
             let released = s.rel_started || s.rel_result.is_some();
             let rels = self.pubrel_seen.iter().filter(|x| **x == id).count();
+            // (caller-chosen ids may be re-used by a later exchange once the earlier one is complete: count per id
+            // the exchanges that were released)
+            let same_id_released = a
+                .iter()
+                .enumerate()
+                .filter(|(k, o)| *k != j && (o.rel_started || o.rel_result.is_some()) && self.wire_pub_ids.iter().any(|w| w.2 == Some(*k) && w.0 == id && w.1 == 2))
+                .count();
+            let rels = rels.saturating_sub(same_id_released);
             if released && rels != 1 {
                 return Err(Violation::new("qos2-pubrel-count", self.rwit("release/drop"), format!("receipt of sender {j} (id {id}) was released or dropped but {rels} PUBREL({id}) packets were written: {}", self.detail())));
             }
